@@ -287,6 +287,39 @@ REQS_ASSIGN = [
     ('assist', 'from massign import Bar\nBar().', (2, 6)),
     ('location', 'from massign import x\nx.attr\n', (2, 6)),
 ]
+# results of calls that reach themselves again through a conditionally bound name (evaluation is cut short by the
+# recursion guard somewhere; where, depends on which function was asked about first)
+MCALL = '''\
+class A(object):
+    def foo(self): pass
+class B(object):
+    def bar(self): pass
+def g():
+    return x
+def f():
+    return x
+def h():
+    if cond:
+        return y
+    return f()
+if cond:
+    x = A()
+else:
+    x = g()
+if cond:
+    y = f()
+elif cond2:
+    y = B()
+else:
+    y = h()
+'''
+REQS_CALL = [
+    ('assist', 'import mcall\nmcall.f().', (2, 10)),
+    ('assist', 'import mcall\nmcall.g().', (2, 10)),
+    ('assist', 'import mcall\nmcall.h().', (2, 10)),
+    ('assist', 'from mcall import y\ny.', (2, 2)),
+    ('location', 'from mcall import g\ng().foo\n', (2, 7)),
+]
 CYC_A = 'from cycb import *\nclass A(object):\n    def am(self): pass\n'
 CYC_B = 'from cyca import *\nclass B(object):\n    def bm(self): pass\n'
 REQS_CYCLE = [
@@ -301,12 +334,13 @@ def project_search(part, which='loop'):
     import tempfile
     import shutil
     out = []
-    REQS = {'loop': REQS_LOOP, 'cls': REQS_CLS, 'assign': REQS_ASSIGN, 'cycle': REQS_CYCLE}[which]
+    REQS = {'loop': REQS_LOOP, 'cls': REQS_CLS, 'assign': REQS_ASSIGN, 'cycle': REQS_CYCLE, 'call': REQS_CALL}[which]
     root = tempfile.mkdtemp(prefix='c04proj')
     try:
         open(os.path.join(root, 'mloop.py'), 'w').write(MLOOP)
         open(os.path.join(root, 'mcls.py'), 'w').write(MCLS)
         open(os.path.join(root, 'massign.py'), 'w').write(MASSIGN)
+        open(os.path.join(root, 'mcall.py'), 'w').write(MCALL)
         open(os.path.join(root, 'cyca.py'), 'w').write(CYC_A)
         open(os.path.join(root, 'cycb.py'), 'w').write(CYC_B)
         shutil.copy(os.path.join(nc.PROJECT_DIR, 'm2.py'), root)
@@ -538,7 +572,7 @@ def run(ctx):
     units += [(unit_progs, (ctx.tier, lo, min(len(sp), lo + 2))) for lo in range(cheap, len(sp), 2)]
     units += [(unit_text, (t, 2 if ctx.quick else 3)) for t in CYCLIC]
     units += [(unit_file, f) for f in sorted(set(repo_files(ctx.tier)))]
-    units += [(unit_project, 'loop'), (unit_project, 'cls'), (unit_project, 'assign'), (unit_project, 'cycle')]
+    units += [(unit_project, 'loop'), (unit_project, 'cls'), (unit_project, 'assign'), (unit_project, 'cycle'), (unit_project, 'call')]
     ctx.pmap(_dispatch, ctx.shuffled(units), chunksize=1)
     c = ctx.counters
     ex = sp[len(sp) // 2]
